@@ -7,7 +7,7 @@ mkdir -p "$d/repo"
 cp -r /repo/svgpathtools "$d/repo/svgpathtools"
 ( cd "$d/repo" && git init -q . 2>/dev/null && git apply "$patch" ) || { echo "PATCH DOES NOT APPLY"; rm -rf "$d"; exit 3; }
 set +e
-cd /verif && ./check "$prop" --repo "$d/repo" "$@"
+cd /verif && ./check "$prop" --repo "$d/repo" --no-evidence "$@"
 code=$?
 rm -rf "$d"
 exit $code
